@@ -32,6 +32,7 @@ RUST_STRAT = {"default": "DefaultStrategy", "nofast": "strategy::test_strategies
 FORMS = ("arc", "gref", "gval", "const", "mut", "nullc", "nullm", "none")
 
 _harness_exe = [None]
+_harness_exe_verif = [None]
 
 
 def _repo():
@@ -81,6 +82,13 @@ def build():
     os.makedirs(buildlib.WORK, exist_ok=True)
     open(os.path.join(buildlib.WORK, "seq_build.log"), "w").write(out)
     _harness_exe[0] = os.path.join(tdir, "debug", "seq")
+    # second build with the hook shim: every other weak compare-exchange fails spuriously
+    env2 = dict(buildlib.ENV, RUSTFLAGS="--cfg arc_swap_verif --check-cfg cfg(arc_swap_verif)")
+    rc2, out2 = buildlib.sh(["cargo", "build", "--offline", "--target-dir", tdir + "-verif"], cwd=crate, timeout=3000, env=env2)
+    _harness_exe_verif[0] = os.path.join(tdir + "-verif", "debug", "seq") if rc2 == 0 else None
+    if rc2 != 0:
+        errs2 = [l for l in out2.splitlines() if l.startswith("error")]
+        broken.append("harness/seq does not build with the hook shim (--cfg arc_swap_verif) against %s: %s" % (repo, " | ".join(errs2[:3])))
     if rc != 0:
         errs = [l for l in out.splitlines() if l.startswith("error")]
         broken.append("harness/seq does not build against %s (the public API or the test strategies changed; correspondence cannot run): %s"
@@ -104,7 +112,7 @@ def assumptions(pid):
         "single-threaded: one thread calls the API, no other thread touches the containers or the thread's debt node; the concurrent protocol is the subject of C01-C13",
         "the theorems are about the models of coq/Seq/SeqImpl.v; they transfer to /repo as far as the differential run reaches (programs counted in coverage): the models predict the real strong_count exactly on every run program",
         "a thread starts with eight empty fast slots and offset 0 (the harness runs every program on a fresh thread; a reused node has empty slots because every earlier program dropped its guards)",
-        "compare_exchange_weak in the hybrid compare_and_swap does not fail spuriously (a spurious failure repeats the loop body, which the model's first round already describes; never observed in the runs)",
+        "compare_exchange_weak does not fail spuriously in the models (a spurious failure repeats the loop body, which the model's first round already describes); the harness is run a second time with every other weak compare-exchange failing spuriously (hook shim) and must give the same results",
         "counts stay far below usize::MAX (Arc aborts at isize::MAX references); the helping generation counter does not wrap within a program",
         "&Guard / Guard as `current` exist in the API only for the default strategy's guard (src/as_raw.rs:47-59); under FillFastSlots and RwLock<()> the harness writes &*guard and drops the guard after the call, which is what the model of those forms does",
     ]
@@ -571,6 +579,24 @@ def run(pid, cfg, tier, seed, workdir, already_broken):
                                     "coq_spec": r["model"].get((str(idx), "spec"), [[], None])[0][:70]})
         if agg["findings"] and not already_broken and tier == "quick":
             break
+    # the same comparison with spurious failures of every other weak compare-exchange injected through the
+    # hook shim: code that uses the weak form must retry, so nothing observable may change
+    n_spur = 0
+    if _harness_exe_verif[0] and os.path.exists(_harness_exe_verif[0]):
+        plain = _harness_exe[0]
+        _harness_exe[0] = _harness_exe_verif[0]
+        try:
+            part = progs[:400 if tier == "quick" else 5000]
+            r = execute(part, workdir, "spurious")
+            n_spur = len(part)
+            for f in r["findings"]:
+                f["message"] = "with a spurious failure injected into every other weak compare-exchange: " + f["message"]
+            agg["findings"] += r["findings"]
+            # not compared with the per-strategy models line by line: a retried exchange re-loads and so uses
+            # another fast slot, which shifts WHICH guards hold debts; only the property itself is judged here
+            # (identities = specification, spec - live guards <= count <= spec, everything 0 at the end)
+        finally:
+            _harness_exe[0] = plain
     broken = []
     if model_fail is not None:
         broken.append("extracted model driver failed: " + model_fail)
@@ -599,6 +625,7 @@ def run(pid, cfg, tier, seed, workdir, already_broken):
         "executed_operations_and_situations": dict(sorted(feats.items())),
         "steps_with_unpaid_debts_default_strategy": stats["steps_with_unpaid_debts"],
         "harness_crashes": len(agg["crashes"]),
+        "programs_rerun_with_spurious_weak_cas_failures": n_spur,
         "samples": samples,
     }
     summary = "%d/%d programs agree under all 3 strategies (impl = strategy model exactly, identities = specification, counts within the borrow rule), %d operations, %d distinct non-trivial" % (
